@@ -12,8 +12,23 @@ COMMON_TRUST = [
     "Go compiler/runtime semantics of integer and slice operations",
 ]
 
+HOOK_COMMITS = ["62e1034"]
+
+UNDER_CONSTRUCTION = "machinery for this property is still under construction in this session; not claimed until its check is green and validated"
+NOT_APPLICABLE = {("C%02d" % i): UNDER_CONSTRUCTION for i in range(1, 21)}
+
 PROPS = {
+    "C19": {
+        "level_text": "Machine-checked theorems (Lean 4 kernel), by induction over the entropy stream, about a hand-written model of generatePrivateKey/PrivKeyFromBytes/Serialize/Zero: success iff some whole 32-byte block is in [1,N-1], the key is exactly the FIRST such block, exactly the blocks up to it are consumed, earlier blocks are discarded never reduced; otherwise the io.ReadFull error (reader error / ErrUnexpectedEOF) and no key; load+serialise = be32(first 32 bytes mod N); Zero clears. Tied to the code by running scripted readers (arbitrary chunking, failure at every offset 0..96, error returned with data) through GeneratePrivateKeyFromRand and diffing result and bytes consumed.",
+        "level_note": "Trusted: Lean kernel; io.ReadFull's documented contract (the reader is abstracted to the bytes it delivers and its terminal error); the hand-written model mirrors privkey.go (validated on generated streams); SetBytes at value level (limb level is C06).",
+        "technique": "Lean 4 proof by induction over streams (Secp.Props.C19) + differential correspondence with scripted io.Readers",
+        "trusted_base": COMMON_TRUST + ["io.ReadFull contract", "Model.generatePrivateKey mirrors privkey.go (hand-written)"],
+        "assumptions": ["a reader is characterised by the bytes it delivers and its terminal error (what io.ReadFull can observe)"],
+    },
     "C09": {
+        "level_text": "Machine-checked theorems (Lean 4 kernel) for ALL byte strings about a hand-written model of ParseDERSignature/Serialize: never panics; accepts exactly the canonical DER of (r,s) in [1,N-1]^2 and returns those values; length 8..72; uniqueness; serialise = canonical DER of (r, low-s); both round trips; every error kind names a really violated rule. The model is tied to the code by a correspondence run (structure-aware mutations of valid encodings, all lengths 0..80) diffed against the real parser.",
+        "level_note": "Trusted: Lean kernel (axioms propext, Classical.choice, Quot.sound); that the hand-written model mirrors signature.go (validated only on generated inputs); scalar decoding inside the parser modelled at value level (limb level is C06).",
+        "technique": "Lean 4 proof over a hand-written model (Secp.Props.C09) + differential correspondence with the Go parser",
         "project": proj_c09,
         "trusted_base": COMMON_TRUST + ["Model.parseDER / serializeDER mirror signature.go ParseDERSignature / Serialize (hand-written)"],
         "assumptions": ["scalar decoding inside the parser is modelled at value level (SetByteSlice = reduce once); the limb-level kernel is C06's concern"],
